@@ -196,15 +196,15 @@ def _c10_ok(algo, nb, opt):
     return None
 
 
-@deal.pre(lambda algo, values, B, opt: B > 0 and all(isinstance(v, int) and v >= 1 for v in values))
-@deal.ensure(lambda algo, values, B, opt, result: _c10_ok(algo, result, opt if opt is not None else spec.opt_cover(values, B)) is None,
+@deal.pre(lambda algo, values, B, opt, fmt: B > 0 and all(isinstance(v, int) and v >= 1 for v in values))
+@deal.ensure(lambda algo, values, B, opt, fmt, result: _c10_ok(algo, result, opt if opt is not None else spec.opt_cover(values, B)) is None,
              message="C10: approximation guarantee of the covering heuristic violated")
-def c10_cover(algo, values, B, opt):
-    return run_pack(algo, values, B, outputtype=out.BinCount)[0]
+def c10_cover(algo, values, B, opt, fmt):
+    return run_pack(algo, values, B, fmt, outputtype=out.BinCount)[0]
 
 
 def c10_case(inp):
-    c10_cover(inp["algo"], inp["values"], inp["B"], inp.get("opt"))
+    c10_cover(inp["algo"], inp["values"], inp["B"], inp.get("opt"), inp.get("fmt", "list"))
     return nontrivial(inp["values"])
 
 
